@@ -57,4 +57,36 @@ theorem d2_fog_entry {no ny nx : Nat} (Jf : Mat ℝ no ny) (Hf : Mat ℝ ny (no 
     transpose, Nat.cast_zero, zero_add]
   rfl
 
+/-- `d2r_rminus(e)`: each `Dof×Dof` block of `d2r_expinv(e)` right-multiplied by `dr_expinv(e)` -/
+theorem d2r_rminus_entry (G : LieModel ℝ) (e : Vec ℝ G.dof) (r j k : Fin G.dof) :
+    (Derivs.d2r_rminus G e) r (col j k)
+      = ∑ l, (G.d2r_expinv e) r (col j l) * (G.dr_expinv e) l k := by
+  have hd : (col j k).val / G.dof = j.val := stack_div k.isLt
+  have hm : (col j k).val % G.dof = k.val := stack_mod k.isLt
+  simp only [Derivs.d2r_rminus, memoM_eq, Mat.of_get, vsum_eq_sum, hd, hm]
+  rfl
+
+/-- `d2r_rminus_squarednorm(e) = JᵀJ + Σ_j e_j·H_j` with `J = dr_rminus(e)`, `H_j` the `j`-th block of
+    `d2r_rminus(e)` (this is `d2_fog` with `f(y) = ½|y|²`: `Jf = eᵀ`, `Hf = I`) -/
+theorem d2r_rminus_squarednorm_entry (G : LieModel ℝ) (e : Vec ℝ G.dof) (r c : Fin G.dof) :
+    (Derivs.d2r_rminus_squarednorm G e) r c
+      = (∑ q, (G.dr_expinv e) q r * (G.dr_expinv e) q c)
+        + ∑ j, e j * (Derivs.d2r_rminus G e) r (col j c) := by
+  have hc : (⟨c.val, by have := c.isLt; omega⟩ : Fin (1 * G.dof)) = col (0 : Fin 1) c := by
+    apply Fin.ext; simp [col]
+  simp only [Derivs.d2r_rminus_squarednorm, memoM_eq, Mat.of_get]
+  rw [hc, d2_fog_entry]
+  congr 1
+  apply Finset.sum_congr rfl
+  intro q _
+  congr 1
+  have : ∀ p : Fin G.dof, (ident G.dof : Mat ℝ G.dof G.dof) p ⟨(col (0 : Fin 1) q).val, by
+      have := (col (0 : Fin 1) q).isLt; omega⟩ = if p = q then 1 else 0 := by
+    intro p
+    have hq : (⟨(col (0 : Fin 1) q).val, by have := (col (0 : Fin 1) q).isLt; omega⟩ : Fin G.dof) = q := by
+      apply Fin.ext; simp [col]
+    rw [hq]; simp [ident]
+  simp only [Mat.of_get, this, Derivs.dr_rminus, mul_ite, mul_one, mul_zero, Finset.sum_ite_eq',
+    Finset.mem_univ, if_true]
+
 end C05Alg
